@@ -29,10 +29,16 @@ pub async fn start_server(bind_addr: SocketAddr, state: Arc<AppState>) -> Result
     tracing::info!("TCP server listening on {bind_addr}");
 
     loop {
-        let (socket, addr) = listener
-            .accept()
-            .await
-            .map_err(|e| ServerError::Shutdown(format!("Failed to accept TCP connection: {e}")))?;
+        let (socket, addr) = match listener.accept().await {
+            Ok(accepted) => accepted,
+            Err(e) => {
+                // A failed accept (EMFILE, ECONNABORTED, ...) concerns one connection attempt,
+                // not the listener: keep serving. The pause keeps descriptor exhaustion from spinning.
+                tracing::warn!("Failed to accept TCP connection: {e}");
+                tokio::time::sleep(Duration::from_millis(100)).await;
+                continue;
+            }
+        };
 
         let state = state.clone();
 
